@@ -1,6 +1,7 @@
 import Srctools.Proofs.C05
 import Srctools.Proofs.C05Round
 import Srctools.Proofs.C05Text
+import Srctools.Proofs.C05Mat
 import Srctools.Gen.Angles
 import Srctools.Gen.Frozen
 set_option exponentiation.threshold 3000
@@ -175,6 +176,42 @@ theorem C05_frozen_machine {α : Type} (N : NumSys α) (sites : List AngleSite) 
     (j : Nat) (o : Obj α) (hj : st[j]? = some o) (hf : o.kind.frozen = true) :
     (run N sites st ops)[j]? = some o :=
   run_frozen N sites ops st j o hj hf
+
+/-- All six classes: in the machine extended with Matrix / FrozenMatrix objects (`_mat_mul` as coded into a fresh copy
+or in place, `transpose`, entry copies for `Matrix(m)`/`copy`/`freeze`/`thaw`/unpickling, `__setitem__`,
+`forward/left/up`, `_vec_rot`), a call changes at most the object it reports as target — an Angle/Vec object … -/
+theorem C05_frame_machine_obj {α : Type} (N : NumSys α) (sites : List AngleSite) (st : MState α) (op : MOp α) (j : Nat)
+    (o : Obj α) (hj : st.objs[j]? = some o) :
+    (mstep N sites st op).1.objs[j]? = some o ∨ ((mstep N sites st op).2 = .obj j ∧ o.kind.frozen = false) :=
+  mstep_frame_obj N sites st op j o hj
+
+/-- … or a matrix, and then a mutable `Matrix`. -/
+theorem C05_frame_machine_mat {α : Type} (N : NumSys α) (sites : List AngleSite) (st : MState α) (op : MOp α) (j : Nat)
+    (o : MObj α) (hj : st.mats[j]? = some o) :
+    (mstep N sites st op).1.mats[j]? = some o ∨ ((mstep N sites st op).2 = .mat j ∧ o.frozen = false) :=
+  mstep_frame_mat N sites st op j o hj
+
+/-- Hence no history of API calls changes a FrozenVec, FrozenAngle **or FrozenMatrix**. -/
+theorem C05_frozen_machine_all {α : Type} (N : NumSys α) (sites : List AngleSite) (ops : List (MOp α)) (st : MState α) :
+    (∀ (j : Nat) (o : Obj α), st.objs[j]? = some o → o.kind.frozen = true → (mrun N sites st ops).objs[j]? = some o) ∧
+    (∀ (j : Nat) (o : MObj α), st.mats[j]? = some o → o.frozen = true → (mrun N sites st ops).mats[j]? = some o) :=
+  mrun_frozen N sites ops st
+
+/-- The range invariant holds in the extended machine as well (matrix operations never write an angle). -/
+theorem C05_angle_inv_all {α : Type} {N : NumSys α} (L : NumLaws N) (sites : List AngleSite)
+    (hs : modelSitesOK sites = true) (ops : List (MOp α)) (hw : WfMRun L sites ⟨[], []⟩ ops) :
+    Inv L (mrun N sites ⟨[], []⟩ ops).objs :=
+  mrun_inv L hs ops ⟨[], []⟩ (inv_nil L) hw
+
+/-- a history with a frozen matrix: `fm = FrozenMatrix(…); m = fm @ fm; m2 = fm.thaw(); m2 @= fm; m2[0,0] = 2.0` leaves
+`fm` as it was (executed on the binary64 model). -/
+example :
+    let fm : MObj Val := ⟨true, ⟨decode 0x3FF0000000000000, decode 0, decode 0, decode 0, decode 0x3FE0000000000000,
+      decode 0xBFEBB67AE8584CAA, decode 0, decode 0x3FEBB67AE8584CAA, decode 0x3FE0000000000000⟩⟩
+    ((mrun b64 Gen.Angles.sites ⟨[], []⟩
+      [.mctor true fm.m, .mmul 0 0 false, .mcopy false 0, .mmul 2 0 true, .mset 2 0 0 (decode 0x4000000000000000),
+       .mmul 0 2 true, .mset 0 1 1 (decode 0)]).mats[0]?.map fun o => encode o.m.bb) = some 0x3FE0000000000000 := by
+  decide +kernel
 
 /-- the sites through which copies are made keep an in-range value (`norm2` or `copyField`) -/
 theorem C05_gen_copy_sites_ok : copySitesOK Gen.Angles.sites = true := by decide +kernel
